@@ -89,7 +89,9 @@ pub struct BuildSim;
 // ------------------------------------------------------------------------------------------
 // input corruption
 
-const BAD_FIELDS: [&str; 26] = [
+const BAD_FIELDS: [&str; 38] = [
+    // malformed escapes next to multi-byte characters (kept as plain text by the compiler)
+    "\\uあい", "\\u1あ", "x\\u12あy", "\\u123京", "\\u{あ}", "\\u{12", "\\u", "京\\u30あ", "\\u{1F600", "\\uD83Dあ", "\\u{}都", "\\u00e9\\uあ",
     "\\u0000", "a\\u{0}", "\\u{0}b", "京\\u0000都",
     "", "-1", "-2", "32767", "32768", "-32768", "-32769", "99999", "abc", "*", "U99", "U0", "0/1/U3", "1e3", " 1", "0x10", "\\u{110000}",
     "\\ud800", "\\u{20}", "4294967295", "268435456", "A/B",
